@@ -64,6 +64,7 @@ type interpreter struct {
 	fnInfos map[*ssa.Function]*fnInfo
 	errStrT types.Type // *errors.errorString, if package errors is loaded
 	depth   int
+	specOK  map[*ssa.BasicBlock]bool
 }
 
 type fnInfo struct {
@@ -369,6 +370,10 @@ func visitInstr(fr *frame, instr ssa.Instruction) continuation {
 		case bool:
 			cond = c
 		case sym:
+			if nb, np, ok := fr.path().lookahead(fr, c.t); ok {
+				fr.prevBlock, fr.block = np, nb
+				return kJump
+			}
 			cond = fr.path().branch(fr, c.t)
 		default:
 			panic(fmt.Sprintf("If: bad condition %T", c))
